@@ -273,9 +273,11 @@ class PulseSynchronizer(Elaboratable):
     def elaborate(self, platform):
         m = Module()
 
-        i_toggle = Signal()
+        # The toggles are not reset with their domains: resetting one end of the (reset-less) synchronizer
+        # chain and not the other would look like an input pulse, or hide one.
+        i_toggle = Signal(reset_less=True)
         o_toggle = Signal()
-        r_toggle = Signal()
+        r_toggle = Signal(reset_less=True)
         ff_sync = m.submodules.ff_sync = \
             FFSynchronizer(i_toggle, o_toggle, o_domain=self._o_domain, stages=self._stages)
 
